@@ -24,6 +24,7 @@ GENERATORS = {
     "Classify_gen": "translator.gen_classify",
     "MultiFact_gen": "translator.gen_multifact",
     "Validate_gen": "translator.gen_validate",
+    "Materialize_gen": "translator.gen_materialize",
 }
 
 
